@@ -49,7 +49,7 @@ var profiles = map[string]profile{
 	"C09":   {name: "C09", wBulk: 3, wReplica: 1, wSnapshot: 1, wRollback: 1, wFilter: 1, maxSteps: 34},
 	"C11":   {name: "C11", wBulk: 6, wRollback: 1, wFilter: 1, maxSteps: 40},
 	"C12":   {name: "C12", wKey: 100, wRollback: 2, wIndex: 1, wSnapshot: 1, wReplica: 1, maxSteps: 30},
-	"C15":   {name: "C15", wReplica: 2, wRollback: 3, wFailIns: 1, wBulk: 2, wDropCol: 3, wIndex: 1, maxSteps: 26},
+	"C15":   {name: "C15", wKey: 2, wReplica: 2, wRollback: 3, wFailIns: 1, wBulk: 2, wDropCol: 3, wIndex: 1, maxSteps: 26},
 	"C16":   {name: "C16", wSort: 100, wFilter: 5, wIndex: 2, wBulk: 2, wSnapshot: 1, wReplica: 1, maxSteps: 30},
 	"C17":   {name: "C17", wReplica: 6, wSnapshot: 4, wBulk: 3, wRollback: 1, wIndex: 1, wFilter: 1, maxSteps: 30},
 	"C19":   {name: "C19", wTrigger: 100, wRollback: 3, wBulk: 1, wReplica: 1, wSnapshot: 1, maxSteps: 30},
@@ -74,6 +74,7 @@ type gen struct {
 	cols        []genCol
 	indexes     []string // index name
 	txnRollback bool     // the transaction being generated ends in a rollback
+	caseID      int
 	idxOn       map[string]string
 	sorts       []string
 	trigs       []string
@@ -426,6 +427,18 @@ func (g *gen) setup() {
 		g.addCol(genCol{"ks", "string", ""})
 		g.addCol(genCol{"kn", "int32", ""})
 		g.addCol(genCol{"k16", "int16", ""})
+	}
+	// index / filter profiles: one numeric column whose kind rotates with the case number (each kind has its own
+	// Apply and Swap code), an index on it, and merges that move values across the rule (step mergeIndexed)
+	if g.p.name == "C03" || g.p.name == "C04" || g.p.name == "C19" {
+		mk := genCol{"mk", numKinds[g.caseID%len(numKinds)], ""}
+		g.addCol(mk)
+		if g.p.name == "C19" {
+			g.addTriggerOn(mk) // the trigger is told each value through the reader of that kind
+		} else {
+			g.addIndexOn(mk)
+		}
+		g.rep.count("indexed-merge-kind=" + mk.kind)
 	}
 	// filter profile: an enum column that only every other row holds (a filter that forgets the presence list is
 	// caught by the rows without a value sitting next to rows with the same interned value)
@@ -889,6 +902,44 @@ func (g *gen) keyOp(tid string, inserted, deleted map[uint32]bool, insertedOK *[
 			g.feat("rekey")
 		}
 	}
+}
+
+// mergeIndexed: values of the indexed column "mk" are set and then, in a transaction of its own, merged with a small
+// delta (the default merge adds), so that they move across the index rule; the dump that follows compares the index
+func (g *gen) mergeIndexed() {
+	kind := ""
+	for _, c := range g.cols {
+		if c.name == "mk" {
+			kind = c.kind
+		}
+	}
+	l := g.liveList()
+	if kind == "" || len(l) == 0 {
+		return
+	}
+	var offs []uint32
+	for i := 0; i < 3; i++ {
+		o := l[g.r.Intn(len(l))]
+		dup := false
+		for _, x := range offs {
+			dup = dup || x == o
+		}
+		if !dup {
+			offs = append(offs, o)
+		}
+	}
+	for _, phase := range []string{"set", "merge", "merge"} {
+		g.nTxn++
+		tid := fmt.Sprintf("m%d", g.nTxn)
+		g.txnRes, g.txnSet = map[string]bool{}, map[string]bool{}
+		g.emit("p begin " + tid)
+		for _, o := range offs {
+			g.emit(fmt.Sprintf("p %s at %d %s:mk:%s", tid, o, phase, g.numValue(kind, true)))
+		}
+		g.emit("p commit " + tid)
+	}
+	g.feat("merge-on-indexed-column")
+	g.dumpAll()
 }
 
 // endsElsewhere: now and then the callback's last step is a nested point read of another row, which leaves the
@@ -1441,7 +1492,62 @@ func (g *gen) lateColumn() {
 	if len(g.cols) >= 8 {
 		return
 	}
-	g.addRandomCol()
+	if g.p.name == "C01" && g.r.Intn(2) == 0 && len(g.live) > 0 {
+		// a column of each kind created after rows exist is written at once on the highest rows (a new column must
+		// cover every offset in use, also when deletes have pushed the row count below the highest offset): the
+		// kind rotates with the case number, bool and the text kinds included
+		if l := g.liveList(); len(l) >= 100 && g.r.Intn(2) == 0 {
+			// first a hole of 70 rows at the low end: the row count falls more than a bitmap word below the highest offset
+			g.nTxn++
+			tid := fmt.Sprintf("H%d", g.nTxn)
+			g.emit("p begin " + tid)
+			for _, o := range l[:70] {
+				g.emit(fmt.Sprintf("p %s del %d", tid, o))
+			}
+			g.emit("p commit " + tid)
+			for _, o := range l[:70] {
+				delete(g.live, o)
+				delete(g.hasVal, o)
+			}
+			g.feat("late-column-after-large-hole")
+		}
+		kinds := append(append([]string(nil), numKinds...), "bool", "bool", "string", "enum", "record")
+		kind := kinds[(g.caseID+g.nCol)%len(kinds)]
+		if g.r.Intn(2) == 0 {
+			kind = "bool" // the one kind whose storage is a single bitmap over all offsets
+		}
+		c := genCol{fmt.Sprintf("c%d", g.nCol), kind, ""}
+		g.nCol++
+		g.addCol(c)
+		l := g.liveList()
+		top := l
+		if len(top) > 4 {
+			top = top[len(top)-4:]
+		}
+		g.nTxn++
+		tid := fmt.Sprintf("L%d", g.nTxn)
+		g.txnRes, g.txnSet = map[string]bool{}, map[string]bool{}
+		g.emit("p begin " + tid)
+		for _, o := range top {
+			switch {
+			case kind == "bool":
+				g.emit(fmt.Sprintf("p %s at %d bool:%s:1", tid, o, c.name))
+			case isNum(kind):
+				g.emit(fmt.Sprintf("p %s at %d set:%s:%s", tid, o, c.name, g.numValue(kind, true)))
+			case kind == "enum":
+				g.emit(fmt.Sprintf("p %s at %d set:%s:%s", tid, o, c.name, g.enumValue()))
+			case kind == "record":
+				g.emit(fmt.Sprintf("p %s at %d set:%s:%s", tid, o, c.name, g.recValue()))
+			default:
+				g.emit(fmt.Sprintf("p %s at %d set:%s:%s", tid, o, c.name, g.strValue(false)))
+			}
+		}
+		g.emit("p commit " + tid)
+		g.feat("late-column-written-on-top-rows")
+		g.dumpAll()
+	} else {
+		g.addRandomCol()
+	}
 	if len(g.live) > 0 {
 		g.feat("column-created-after-rows")
 	}
@@ -1468,6 +1574,7 @@ func genStoreCase(r *rand.Rand, p profile, rep *Report, id int) Case {
 	g := &gen{r: r, p: p, impl: newStoreImpl().(*storeImpl), feats: map[string]bool{}, rep: rep, live: map[uint32]bool{}, idxOn: map[string]string{},
 		hasVal: map[uint32]map[string]bool{}, txnRes: map[string]bool{}, txnSet: map[string]bool{}}
 	defer g.impl.Close()
+	g.caseID = id
 	g.setup()
 	steps := 6 + r.Intn(p.maxSteps)
 	if p.wSort >= 100 && r.Intn(2) == 0 {
@@ -1490,7 +1597,12 @@ func genStoreCase(r *rand.Rand, p profile, rep *Report, id int) Case {
 			if p.name == "C02" && r.Intn(2) == 0 {
 				pick = 0
 			}
+			if (p.name == "C03" || p.name == "C04" || p.name == "C19") && r.Intn(2) == 0 {
+				pick = 4
+			}
 			switch pick {
+			case 4:
+				g.mergeIndexed()
 			case 0:
 				g.filteredDelete()
 			case 1:
@@ -1505,7 +1617,11 @@ func genStoreCase(r *rand.Rand, p profile, rep *Report, id int) Case {
 		case x < 28:
 			g.lateColumn()
 		case x < 30:
-			g.readTxn()
+			if p.name == "C01" && r.Intn(2) == 0 {
+				g.lateColumn()
+			} else {
+				g.readTxn()
+			}
 		case x < 30+p.wIndex:
 			if r.Intn(4) == 0 {
 				g.dropIndex()
